@@ -134,6 +134,9 @@ pub struct QuerySpec {
     /// a well-formed query sent right after a hostile input: it must be answered
     #[serde(default)]
     pub liveness_probe: bool,
+    /// sent long after the last fault: must get the real answer (bounded recovery)
+    #[serde(default)]
+    pub after_faults: bool,
 }
 
 #[derive(Clone, Debug, Serialize, Deserialize)]
@@ -376,7 +379,10 @@ pub fn generate(seed: u64, g: &GenB) -> PlanB {
     let upstreams: Vec<IpAddr> = (0..nup)
         .map(|i| if r.chance(0.6) { IpAddr::V4(Ipv4Addr::new(198, 51, 100, 10 + i as u8)) } else { IpAddr::V6(Ipv6Addr::new(0x2001, 0xdb8, 0x53, 0, 0, 0, 0, 0x10 + i as u16)) })
         .collect();
-    let faulty = matches!(shape, "faulty");
+    /* idreuse: many TCP-path queries in flight on the shared upstream connection with
+     * 3-bit query ids, duplicated and stray replies */
+    let idreuse = shape == "idreuse";
+    let faulty = matches!(shape, "faulty") || idreuse;
     let upstream_tcp: Vec<String> = (0..nup).map(|_| if faulty { r.pick(&["accept", "accept", "accept", "refuse", "blackhole"]).to_string() } else { "accept".to_string() }).collect();
 
     /* routes: nested and sibling suffixes, mixed case, in seeded order */
@@ -442,7 +448,7 @@ pub fn generate(seed: u64, g: &GenB) -> PlanB {
         out_loss_p: if faulty && r.chance(0.5) { *r.pick(&[0.05, 0.2]) } else { 0.0 },
         out_dup_p: if faulty && r.chance(0.3) { 0.1 } else { 0.0 },
         out_delay_p: if faulty && r.chance(0.3) { 0.2 } else { 0.0 },
-        qid_bits: if faulty && r.chance(0.3) { *r.pick(&[6u32, 3]) } else { 16 },
+        qid_bits: if idreuse { 3 } else if faulty && r.chance(0.3) { *r.pick(&[6u32, 3]) } else { 16 },
         sndbuf: *r.pick(&[4096usize, 16384, 65536, 1 << 20, 1 << 20]),
         max_seg: *r.pick(&[0usize, 0, 0, 1460, 536]),
         lat_max_us: *r.pick(&[100u64, 2000, 20000]),
@@ -459,6 +465,7 @@ pub fn generate(seed: u64, g: &GenB) -> PlanB {
     let names_by_route: Vec<String> = suffix_pool.clone();
     for qi in 0..nq {
         t += match shape {
+            "idreuse" => *r.pick(&[0u64, 0, 1, 2, 5]),
             "burst" => {
                 if r.chance(0.85) {
                     0
@@ -558,7 +565,9 @@ pub fn generate(seed: u64, g: &GenB) -> PlanB {
         } else {
             UpBehaviour::Normal { delay_ms: r.range(1, 200) }
         };
-        let up_tcp = if faulty {
+        let up_tcp = if idreuse {
+            r.pick(&[UpTcp::Twice, UpTcp::Twice, UpTcp::UnknownIdFirst, UpTcp::Normal, UpTcp::Slow { delay_ms: 300 }]).clone()
+        } else if faulty {
             match r.below(12) {
                 0 => UpTcp::OneByte,
                 1 => UpTcp::Reset,
@@ -574,7 +583,7 @@ pub fn generate(seed: u64, g: &GenB) -> PlanB {
         } else {
             UpTcp::Normal
         };
-        let tcp = if shape == "large" { true } else { r.chance(if big { 0.5 } else { 0.3 }) };
+        let tcp = if shape == "large" || idreuse { true } else { r.chance(if big { 0.5 } else { 0.3 }) };
         let edns = if r.chance(0.7) {
             Some(EdnsSpec {
                 size: *r.pick(&[0u16, 511, 512, 513, 1232, 1232, 4096, 4096, 65535]),
@@ -624,7 +633,37 @@ pub fn generate(seed: u64, g: &GenB) -> PlanB {
             exempt: false,
             quiet_probe: false,
             liveness_probe: false,
+            after_faults: false,
         });
+    }
+    if faulty && !p.queries.is_empty() {
+        /* recovery probes: long after the last fault, well-formed queries with a
+         * well-behaved upstream exchange must get their real answers again */
+        let t_last = p.queries.iter().map(|q| q.at_ms).max().unwrap();
+        let template = p.queries[0].clone();
+        for i in 0..4u64 {
+            let mut q = template.clone();
+            q.at_ms = t_last + 800_000 + i * 3_000;
+            q.src_port = 900 + i as u16;
+            q.id = r.below(65536) as u16;
+            q.qname = Name::parse(&format!("recovered{}.{}", i, template.qname.to_text()));
+            q.up = UpBehaviour::Normal { delay_ms: 20 };
+            q.up_tcp = UpTcp::Normal;
+            q.ans = AnsSpec { seed: r.next_u64(), rcode: 0, counts: [2, 1, 1], ttl_mode: 1, fixed_ttl: 60, pad: 0, compress: true, share_names: true, with_opt: true };
+            q.dup_in = false;
+            q.tcp_split = vec![];
+            q.rd = true;
+            q.qclass = 1;
+            q.edns = None;
+            q.after_faults = true;
+            /* over TCP only if the route's upstream accepts connections */
+            let up_ok = match p.route_for(&q.qname) {
+                Some(RouteKind::Forward(u)) => p.upstream_tcp[*u] == "accept",
+                _ => false,
+            };
+            q.tcp = i % 2 == 1 && up_ok;
+            p.queries.push(q);
+        }
     }
     if shape == "cache" {
         add_cache_followups(&mut p, &mut r);
@@ -715,6 +754,7 @@ pub fn generate_flood(seed: u64, cookie: bool) -> PlanB {
         exempt: false,
         quiet_probe: false,
         liveness_probe: false,
+        after_faults: false,
     };
     let mut port = 1024u16;
     let mut next_port = || {
